@@ -218,16 +218,27 @@ func sliceUp(ci *concInfo, v ssa.Value, f *ssa.Function) map[ssa.Value]bool {
 		for x := range sl {
 			all[x] = true
 			p, ok := x.(*ssa.Parameter)
-			if !ok || p.Parent() != it.f || it.depth >= 3 {
+			if !ok || it.depth >= 3 {
+				continue
+			}
+			// the parameter belongs to the function sliced in, or (through a captured variable) to a function enclosing it
+			pf := p.Parent()
+			encl := false
+			for g := it.f; g != nil; g = g.Parent() {
+				if g == pf {
+					encl = true
+				}
+			}
+			if !encl {
 				continue
 			}
 			idx := -1
-			for i, q := range it.f.Params {
+			for i, q := range pf.Params {
 				if q == p {
 					idx = i
 				}
 			}
-			n := ci.g.Nodes[it.f]
+			n := ci.g.Nodes[pf]
 			if idx < 0 || n == nil {
 				continue
 			}
